@@ -635,6 +635,52 @@ func hugeBuffers() {
 	}
 }
 
+// periodic: long streams on one listener (thousands of messages, where the
+// bounded spaces stop at a handful): every pattern of one to three units over
+// messages of one, two and three bytes, a running-status pair, a short sysex
+// and two real-time bytes, repeated up to 5200 bytes (thorough 70000), sent in
+// one piece, in chunks of seven and byte by byte. What a decoder counts or
+// fills while it runs (blocks, rings, totals) passes every remainder this way.
+func periodic(part, parts int) {
+	units := [][]byte{{0x90, 0x3C, 0x40}, {0x3E, 0x41}, {0xC1, 0x05}, {0xF8}, {0xF0, 0x01, 0x02, 0xF7}, {0xF2, 0x01, 0x02}, {0xFE}, {0xD2, 0x11}, {0xFF}}
+	total := ctx.Pick(5200, 70000)
+	var pats [][]int
+	n := len(units)
+	for a := 0; a < n; a++ {
+		pats = append(pats, []int{a})
+		for b := 0; b < n; b++ {
+			pats = append(pats, []int{a, b})
+			for c := 0; c < n; c++ {
+				pats = append(pats, []int{a, b, c})
+			}
+		}
+	}
+	for pi, pat := range pats {
+		if pi%parts != part {
+			continue
+		}
+		var period []byte
+		for _, u := range pat {
+			period = append(period, units[u]...)
+		}
+		stream := make([]byte, 0, total+len(period))
+		for len(stream) < total {
+			stream = append(stream, period...)
+		}
+		var sevens []int
+		for left := len(stream); left > 0; left -= 7 {
+			sevens = append(sevens, min(7, left))
+		}
+		for _, cfg := range []config{{true, 16}, {false, 16}} {
+			for _, chunks := range [][]int{{len(stream)}, sevens, nil} {
+				ctx.Eval()
+				feed(cfg, stream, chunks, 0)
+				ctx.Add("periodic_streams", 1)
+			}
+		}
+	}
+}
+
 func feedSized(cfg config, eff int, stream []byte, chunks []int) {
 	refBuf = eff
 	feed(cfg, stream, chunks, 0)
@@ -689,6 +735,7 @@ func main() {
 	ctx.Jobs("long-chunks", 2*nl*nl, func(j int) { longChunks(cfgs[j/(nl*nl)], (j/nl)%nl, j%nl) })
 	ctx.Jobs("sysex-words", 10, func(j int) { sysexWords(j, 10) })
 	ctx.Jobs("long-lived", 4, func(j int) { longLived(j) })
+	ctx.Jobs("periodic", 16, func(j int) { periodic(j, 16) })
 	ctx.Jobs("long-pauses", 1, func(int) { longPauses(); relistenSizes(); hugeBuffers() })
 	ctx.Set("traces_validated_against_impl", ctx.GetInt("transitions"))
 	ctx.Set("max_depth", ctx.GetInt("max:depth"))
